@@ -72,6 +72,14 @@ type RTCPSink struct {
 	calls  []SentRTCP
 	FailAt map[int]error
 	OnCall func(SentRTCP)
+	failIf func(SentRTCP) error
+}
+
+// SetFailIf installs (or clears) a predicate that makes matching writes fail; other goroutines' writes are unaffected.
+func (s *RTCPSink) SetFailIf(f func(SentRTCP) error) {
+	s.mu.Lock()
+	s.failIf = f
+	s.mu.Unlock()
 }
 
 // Write implements interceptor.RTCPWriter.
@@ -92,6 +100,9 @@ func (s *RTCPSink) Write(pkts []rtcp.Packet, _ interceptor.Attributes) (int, err
 	idx := len(s.calls)
 	s.calls = append(s.calls, rec)
 	err := s.FailAt[idx]
+	if err == nil && s.failIf != nil {
+		err = s.failIf(rec)
+	}
 	s.mu.Unlock()
 	if s.OnCall != nil {
 		s.OnCall(rec)
